@@ -80,6 +80,16 @@ def state_names(rng, n, kind):
         if style == 1:
             return [(nm[0], nm) for nm in names]
         return [((nm,), rng.randint(0, 3), nm[::-1]) for nm in names]
+    if kind == 'mixed':
+        # state names of DIFFERENT, mutually unorderable types in one structure (ints next to strings next to tuples with fields of
+        # different types): nothing in a model checker may need to order its states
+        out = []
+        for i in range(n):
+            k = (i + rng.randint(0, 2)) % 4
+            out.append([i - 2, 's%d' % i, ('t', i), (i, None if i % 2 else 'x')][k])
+        if len(set(map(repr, out))) == len(out) and len(set(out)) == len(out):
+            return out
+        return [i if i % 2 else 's%d' % i for i in range(n)]
     raise ValueError(kind)
 
 
@@ -171,7 +181,7 @@ def variants_inprocess(kd, aps, queries, rng):
     vs.append(('perm', presentation(kd, rng, permute=True), queries, None))
     vs.append(('perm-S-omitted', presentation(kd, rng, permute=True, omit_S=True), queries, None))
     vs.append(('perm-as-sets', presentation(kd, rng, permute=True, containers='set'), queries, None))
-    for kind in ('int', 'str', 'tuple'):
+    for kind in ('int', 'str', 'tuple', 'mixed'):
         nm = dict(zip(kd['S'], state_names(rng, n, kind)))
         vs.append(('rename-' + kind, presentation(kd, rng, names=nm, permute=rng.random() < 0.5,
                                                   containers='set' if rng.random() < 0.3 else 'list'), queries, None))
@@ -206,7 +216,7 @@ def variants_hashseed(kd, aps, queries, rng):
     sigma = dict(zip(aps, fresh_names(rng, len(aps), avoid=aps)))
     qs = [(lg, rename_formula(f, sigma)) for lg, f in queries]
     vs = []
-    for kind in ('str', 'tuple', 'int'):
+    for kind in ('str', 'tuple', 'int', 'mixed'):
         nm = dict(zip(kd['S'], state_names(rng, n, kind)))
         vs.append(('hashseed-' + kind, presentation(kd, rng, names=nm, sigma=sigma, containers='set'), qs, None))
     return vs
